@@ -20,6 +20,7 @@ func init() {
 			Explanation: "Decides the structural part of tunnel set-up and tear-down in bfe_websocket and bfe_stream: (flush) on every path of serverConn.websocketDataTransfer that starts a copy goroutine, the bytes buffered in the hijacked client reader were peeked and, unless their length was tested to be 0, written to the backend connection with the write error tested, and likewise the bytes buffered in sc.bbr (the reader the handshake response was parsed from) were written to the client, both before the first `go`; (directions) every normal exit of websocketDataTransfer / TLSProxyHandler has either started two goroutines or reported an error on the error channel; the goroutines are io.Copy(backend, client) and io.Copy(client, backend) over the raw connections and each sends its result on the error channel on every path; (capacity) the error channel is created with a constant capacity >= the number of sends the set-up function itself can perform before the serve loop receives (no send can block the serve goroutine); (tear-down) in both serve loops the receive from the error channel and from closeNotifyCh lead to shutDownIn before the loop continues, the timer case leaves the loop, shutDownIn arms shutdownTimerCh from time.NewTimer(d) unless already armed, and deferred Close calls for both the client and the backend connection are registered before the copy goroutines are started; the stream handler is invoked with (sc.conn, backend conn, sc.copyErrCh); " +
 				"(armed state, rule tunnel-armed) nothing armed on the two connections during set-up outlives the set-up: a forward may-analysis of read/write deadlines (X.Set{,Read,Write}Deadline with a time that is not provably the zero time arms, with the zero time disarms; connections are identified by access path through fields, locals, closures' free variables, type assertions, parameters and results) runs from serverConn.serve through every function and closure of the package it calls (findBackend, websocketHandshake, websocketDataTransfer, processProxyProtocol, the handler returned by proxyHandler(), deferred calls at function exit) into the bodies of the copy goroutines, and at each io.Copy(dst, src) of a copy goroutine no write deadline may be armed on dst and no read deadline on src; no deadline may be armed between the start of the goroutines and the serve loop's select. The client connection's entry state is derived, not assumed: the connection returned by Hijack() carries the request phase's deadlines unless bfe_server's response.Hijack clears them on every path to its non-nil return, and the stream connection carries whatever the same analysis of bfe_server's conn.serve finds armed at the call of the TLSNextProto handler (today: the TLS-handshake read deadline, cleared before the hand-off), so that a clear may live on either side of the hand-off. " +
 				"(sole reader, rule tunnel-sole-reader) the client connection of a WebSocket tunnel is the connection of the ResponseWriter that gets hijacked, so nothing else may be reading it: the methods of bfe_server.response that (through static calls inside bfe_server) start a goroutine which reads (io.Copy/Read… in the goroutine body) are derived — today CloseNotify, whose lazily started goroutine copies the connection into a pipe and survives Hijack(); in every function and closure of bfe_websocket reachable from serverConn.serve no such method is invoked on, and no interface containing one is asserted from, a value whose interface type bfe_server.response implements (CloseNotifier, via CloseWatcher or directly), and bfe_server.conn.serve calls nothing that starts such a reader on a path that continues to the HTTPNextProto hand-off. " +
+				"Robustness: the flush of a side may be done inline or by a helper that is handed the buffered reader and the target connection and whose error result the set-up path tests (the helper is analysed path by path with its parameters in the roles of reader and connection); the tested write error may reach the test through a phi (one merged `if err != nil`); paths that take contradictory nil-tests of the same value are discarded as infeasible. " +
 				"Not covered: byte transparency itself (that io.Copy and the connections deliver every byte in order), half-close semantics, timing of the 250 ms grace period, what the hijacked reader contains; for the armed state: the analysis joins paths (a deadline armed and cleared under two separate but correlated conditions is reported), deadlines armed by callees outside the package that receive the connection (req.Write, Header.WriteTo, tls handshake) or through method values, and other long-lived state such as timers (time.AfterFunc closing a connection) are not followed.",
 			RuleText:    "obligations = per set-up function {each flush side, start-or-report, each direction, each goroutine's report}, the channel capacity, per serve loop {each select case, shutDownIn, each deferred close}, the handshake reader identity, the stream handler's arguments, per copy goroutine {no deadline armed on its connections when its io.Copy starts}, per package {no deadline armed while the tunnel runs}, per set-up function {no use of a ResponseWriter method that starts a background reader}, the hand-off in conn.serve",
 			Assumptions: []string{"http.Hijacker.Hijack returns the connection's buffered reader (bfe_server.response.Hijack)", "the response writer hijacked by bfe_websocket is bfe_server's response; bfe_stream's serverConn.conn is the connection bfe_server's conn.serve passes to the TLSNextProto handler", "functions outside the tunnel package that are handed a connection during set-up leave its deadlines as they found them", "io.Copy returns only after EOF or error of one side"},
@@ -54,6 +55,7 @@ func init() {
 			{Name: "silent-ws-armed-in-handshake-cleared-in-transfer", File: "bfe_websocket/server_conn.go", Old: "	// write 101 response\n	return sendResponse(rw, rsp)\n}\n\nfunc (sc *serverConn) websocketDataTransfer() {\n	var cbr *bufio.ReadWriter\n	var err error\n	errCh := sc.errCh\n", New: "	// write 101 response\n	sc.bconn.SetWriteDeadline(time.Now().Add(time.Second))\n	return sendResponse(rw, rsp)\n}\n\nfunc (sc *serverConn) websocketDataTransfer() {\n	var cbr *bufio.ReadWriter\n	var err error\n	errCh := sc.errCh\n	sc.bconn.SetDeadline(time.Time{})\n", Silent: true},
 			{Name: "silent-stream-redundant-clear-removed", File: "bfe_stream/server_conn.go", Old: "	var zero time.Time\n	sc.conn.SetDeadline(zero)\n", New: "", Silent: true},
 			{Name: "silent-reorder-goroutines", File: "bfe_stream/server_conn.go", Old: "	go func() {\n		n, err := io.Copy(b, c)\n		state.StreamBytesRecv.Inc(uint(n))\n		errCh <- err\n	}()\n\n	go func() {\n		n, err := io.Copy(c, b)\n		state.StreamBytesSent.Inc(uint(n))\n		errCh <- err\n	}()", New: "	go func() {\n		n, err := io.Copy(c, b)\n		state.StreamBytesSent.Inc(uint(n))\n		errCh <- err\n	}()\n\n	go func() {\n		written, cerr := io.Copy(b, c)\n		state.StreamBytesRecv.Inc(uint(written))\n		errCh <- cerr\n	}()", Silent: true},
+			{Name: "silent-ws-backend-flush-flattened", File: "bfe_websocket/server_conn.go", Old: "	bbuf, err := peekBufferedData(sc.bbr)\n	if err != nil {\n		errCh <- err\n		return\n	}\n	if len(bbuf) > 0 {\n		if _, err := sc.cconn.Write(bbuf); err != nil {\n			errCh <- err\n			return\n		}\n	}\n", New: "	bbuf, err := peekBufferedData(sc.bbr)\n	if err == nil && len(bbuf) > 0 {\n		_, err = sc.cconn.Write(bbuf)\n	}\n	if err != nil {\n		errCh <- err\n		return\n	}\n", Silent: true},
 		},
 	})
 }
@@ -66,8 +68,203 @@ func c47isSend(in ssa.Instruction, chSuffix string) bool {
 
 type c47side struct {
 	name   string
-	isPeek func(call *ssa.Call) bool
-	target string // origin of the connection the buffered bytes must be written to
+	reader func(v ssa.Value) bool // v is the buffered reader of this side
+	peekFn string                 // the function that peeks the buffered bytes of a reader
+	target string                 // origin of the connection the buffered bytes must be written to
+}
+
+func (sd c47side) isPeek(call *ssa.Call) bool {
+	return core.CallIs(&call.Call, sd.peekFn) && len(call.Call.Args) > 0 && sd.reader(call.Call.Args[0])
+}
+
+// c47flushOnPath decides, for the first upTo instructions of path p (all when
+// upTo < 0), whether the bytes buffered in a reader were peeked and, unless
+// their length was tested to be 0, written to the target connection with the
+// write error tested. The same work done by a helper that is handed the reader
+// and the connection (and whose error the path tests) counts. Returns the
+// complaint, "" when satisfied.
+func c47flushOnPath(p *core.Path, upTo int, sd c47side, isTarget func(ssa.Value) bool, depth int) string {
+	var peek, write *ssa.Call
+	viaHelper := false
+	k := 0
+	p.Instrs(func(in ssa.Instruction) bool {
+		if upTo >= 0 && k >= upTo {
+			return false
+		}
+		k++
+		call, ok := in.(*ssa.Call)
+		if !ok {
+			return true
+		}
+		if sd.isPeek(call) {
+			peek = call
+		}
+		if peek != nil && call.Call.IsInvoke() && call.Call.Method.Name() == "Write" && len(call.Call.Args) == 1 {
+			if pc, i := nxCallResult(call.Call.Args[0]); pc == peek && i == 0 && isTarget(call.Call.Value) {
+				write = call
+			}
+		}
+		// a helper handed (reader, target) that flushes on all of its success paths
+		if h := call.Call.StaticCallee(); h != nil && h.Blocks != nil && depth > 0 && !call.Call.IsInvoke() && len(call.Call.Args) == len(h.Params) {
+			ri, ti := -1, -1
+			for i, a := range call.Call.Args {
+				if sd.reader(a) {
+					ri = i
+				}
+				if isTarget(a) {
+					ti = i
+				}
+			}
+			if ri >= 0 && ti >= 0 && ri != ti && c47helperFlushes(h, ri, ti, sd, depth-1) && c47errTestedNil(p, call) {
+				viaHelper = true
+			}
+		}
+		return true
+	})
+	if viaHelper {
+		return ""
+	}
+	if peek == nil {
+		return "buffered data of the " + sd.name + " side is not peeked before the first goroutine starts; path {" + pathSig(p) + "}"
+	}
+	empty, werrChecked := false, false
+	p.Edges(func(cond ssa.Value, taken bool) {
+		if ub, ok := nxUpper(cond, taken, func(x ssa.Value) bool {
+			arg, isLen := nxIsLen(x)
+			if !isLen {
+				return false
+			}
+			pc, i := nxCallResult(arg)
+			return pc == peek && i == 0
+		}); ok && ub <= 0 {
+			empty = true
+		}
+	})
+	if write != nil && c47errTestedNil(p, write) {
+		werrChecked = true
+	}
+	// a helper may hand the write error to its caller, which tests it
+	if write != nil && !werrChecked && upTo < 0 {
+		if ret, ok := p.Last().(*ssa.Return); ok {
+			rv := core.RetVals(ret)
+			if len(rv) > 0 {
+				if wc, i := nxCallResult(nxPathVal(p, rv[len(rv)-1])); wc == write && i == 1 {
+					werrChecked = true
+				}
+			}
+		}
+	}
+	switch {
+	case empty:
+	case write == nil:
+		return "buffered " + sd.name + " bytes (length not tested to be 0) are not written to " + sd.target + " before the copy goroutines start: they are lost; path {" + pathSig(p) + "}"
+	case !werrChecked:
+		return "the error of writing the buffered " + sd.name + " bytes to " + sd.target + " is not tested before the copy goroutines start; path {" + pathSig(p) + "}"
+	}
+	return ""
+}
+
+// c47errTestedNil: an edge of path p establishes that the error result of call
+// is nil (the tested value may reach the test through phis: `_, err = w.Write(b)`
+// merged with an earlier err and tested once).
+func c47errTestedNil(p *core.Path, call *ssa.Call) bool {
+	isErr := func(v ssa.Value) bool {
+		c, i := nxCallResult(nxPathVal(p, v))
+		if c != call {
+			return false
+		}
+		n := call.Call.Signature().Results().Len()
+		return i == n-1
+	}
+	found := false
+	p.Edges(func(cond ssa.Value, taken bool) {
+		bo, ok := cond.(*ssa.BinOp)
+		if !ok || (bo.Op != token.EQL && bo.Op != token.NEQ) {
+			return
+		}
+		for _, pr := range [][2]ssa.Value{{bo.X, bo.Y}, {bo.Y, bo.X}} {
+			if isErr(pr[0]) && isNilConst(pr[1]) && (bo.Op == token.EQL) == taken {
+				found = true
+			}
+		}
+	})
+	return found
+}
+
+// c47pathInfeasible: the path takes two edges that contradict each other on
+// whether the same value (resolved through the phis along the path) is nil.
+func c47pathInfeasible(p *core.Path) bool {
+	facts := map[ssa.Value]bool{}
+	bad := false
+	p.Edges(func(cond ssa.Value, taken bool) {
+		bo, ok := cond.(*ssa.BinOp)
+		if !ok || (bo.Op != token.EQL && bo.Op != token.NEQ) {
+			return
+		}
+		for _, pr := range [][2]ssa.Value{{bo.X, bo.Y}, {bo.Y, bo.X}} {
+			if !isNilConst(pr[1]) || isNilConst(pr[0]) {
+				continue
+			}
+			v := nxPathVal(p, pr[0])
+			isNil := (bo.Op == token.EQL) == taken
+			if old, seen := facts[v]; seen && old != isNil {
+				bad = true
+			}
+			facts[v] = isNil
+		}
+	})
+	return bad
+}
+
+// c47helperFlushes: on every path of h that returns a nil error (or hands the
+// write error to the caller), the reader parameter ri was flushed to the
+// connection parameter ti.
+func c47helperFlushes(h *ssa.Function, ri, ti int, sd c47side, depth int) bool {
+	if ri >= len(h.Params) || ti >= len(h.Params) {
+		return false
+	}
+	res := h.Signature.Results()
+	if res.Len() == 0 || res.At(res.Len()-1).Type().String() != "error" {
+		return false
+	}
+	inner := c47side{name: sd.name, peekFn: sd.peekFn, target: sd.target,
+		reader: func(v ssa.Value) bool { return core.StripConv(v) == ssa.Value(h.Params[ri]) }}
+	isTarget := func(v ssa.Value) bool { return core.StripConv(v) == ssa.Value(h.Params[ti]) }
+	ok, n := true, 0
+	complete := nxEnumPaths(h.Blocks[0], nil, 2, 500, nil, func(p *core.Path) {
+		ret, isRet := p.Last().(*ssa.Return)
+		if !isRet || c47pathInfeasible(p) {
+			return
+		}
+		rv := core.RetVals(ret)
+		ev := nxPathVal(p, rv[len(rv)-1])
+		if !isNilConst(ev) {
+			// an error return: the path established ev != nil, or ev is a fresh error
+			if ec, _ := nxCallResult(ev); ec == nil {
+				return
+			}
+			nonNil := false
+			p.Edges(func(cond ssa.Value, taken bool) {
+				bo, isBin := cond.(*ssa.BinOp)
+				if !isBin || (bo.Op != token.EQL && bo.Op != token.NEQ) {
+					return
+				}
+				for _, pr := range [][2]ssa.Value{{bo.X, bo.Y}, {bo.Y, bo.X}} {
+					if nxPathVal(p, pr[0]) == ev && isNilConst(pr[1]) && (bo.Op == token.NEQ) == taken {
+						nonNil = true
+					}
+				}
+			})
+			if nonNil {
+				return
+			}
+		}
+		n++
+		if c47flushOnPath(p, -1, inner, isTarget, depth) != "" {
+			ok = false
+		}
+	})
+	return complete && ok && n > 0
 }
 
 // c47transfer checks a tunnel set-up function.
@@ -145,6 +342,9 @@ func c47transfer(c *core.Ctx, fn *ssa.Function, client, backend, errCh string, f
 		if _, ok := p.Last().(*ssa.Return); !ok {
 			return
 		}
+		if c47pathInfeasible(p) {
+			return
+		}
 		paths++
 		seen := map[string]bool{}
 		sends := 0
@@ -177,61 +377,8 @@ func c47transfer(c *core.Ctx, fn *ssa.Function, client, backend, errCh string, f
 			if badFlush[sd.name] != "" {
 				continue
 			}
-			var peek *ssa.Call
-			var write *ssa.Call
-			k := 0
-			p.Instrs(func(in ssa.Instruction) bool {
-				if k >= firstGo {
-					return false
-				}
-				k++
-				call, ok := in.(*ssa.Call)
-				if !ok {
-					return true
-				}
-				if sd.isPeek(call) {
-					peek = call
-				}
-				if peek != nil && call.Call.IsInvoke() && call.Call.Method.Name() == "Write" && len(call.Call.Args) == 1 {
-					if pc, i := nxCallResult(call.Call.Args[0]); pc == peek && i == 0 && nxOrigin(call.Call.Value) == sd.target {
-						write = call
-					}
-				}
-				return true
-			})
-			if peek == nil {
-				badFlush[sd.name] = "buffered data of the " + sd.name + " side is not peeked before the first goroutine starts; path {" + pathSig(p) + "}"
-				continue
-			}
-			empty, werrChecked := false, false
-			p.Edges(func(cond ssa.Value, taken bool) {
-				if ub, ok := nxUpper(cond, taken, func(x ssa.Value) bool {
-					arg, isLen := nxIsLen(x)
-					if !isLen {
-						return false
-					}
-					pc, i := nxCallResult(arg)
-					return pc == peek && i == 0
-				}); ok && ub <= 0 {
-					empty = true
-				}
-				if write != nil {
-					if bo, ok := cond.(*ssa.BinOp); ok {
-						for _, o := range []ssa.Value{bo.X, bo.Y} {
-							if wc, i := nxCallResult(o); wc == write && i == 1 && nxCondErrNil(cond, taken, o) {
-								werrChecked = true
-							}
-						}
-					}
-				}
-			})
-			switch {
-			case empty:
-			case write == nil:
-				badFlush[sd.name] = "buffered " + sd.name + " bytes (length not tested to be 0) are not written to " + sd.target + " before the copy goroutines start: they are lost; path {" + pathSig(p) + "}"
-			case !werrChecked:
-				badFlush[sd.name] = "the error of writing the buffered " + sd.name + " bytes to " + sd.target + " is not tested before the copy goroutines start; path {" + pathSig(p) + "}"
-			}
+			sd := sd
+			badFlush[sd.name] = c47flushOnPath(p, firstGo, sd, func(v ssa.Value) bool { return nxOrigin(v) == sd.target }, 2)
 		}
 	})
 	c.Check("tunnel-start", name, fn.Pos(), complete && paths > 0 && badStart == "",
@@ -343,7 +490,7 @@ func c47serve(c *core.Ctx, pkg, errField string) *ssa.Function {
 			if nxAllPathsPass(sd, r, isArm) {
 				continue
 			}
-			armed := core.HasGuard(r.Block(), func(g core.Guard) bool {
+			armed := nxHolds(r.Block(), func(g core.Guard) bool {
 				bo, isBin := g.Cond.(*ssa.BinOp)
 				if !isBin {
 					return false
@@ -430,6 +577,7 @@ func c47deferredCloses(fn *ssa.Function) map[*ssa.Defer][]string {
 }
 
 func runC47(c *core.Ctx) {
+	defer nxEnter(c)()
 	// ---- websocket
 	const ws = "bfe_websocket"
 	if c.P.Pkg(ws) == nil {
@@ -439,15 +587,13 @@ func runC47(c *core.Ctx) {
 		tr := nxFuncOrMissing(c, ws, "serverConn.websocketDataTransfer")
 		if tr != nil {
 			flush := []c47side{
-				{"client", func(call *ssa.Call) bool {
-					return core.CallIs(&call.Call, ws+".peekBufferedData") && nxFlows(call.Call.Args[0], func(v ssa.Value) bool {
+				{"client", func(v ssa.Value) bool {
+					return nxFlows(v, func(v ssa.Value) bool {
 						hc, ok := v.(*ssa.Call)
 						return ok && hc.Call.IsInvoke() && hc.Call.Method.Name() == "Hijack"
 					}, nil)
-				}, "sc.bconn"},
-				{"backend", func(call *ssa.Call) bool {
-					return core.CallIs(&call.Call, ws+".peekBufferedData") && nxOrigin(call.Call.Args[0]) == "sc.bbr"
-				}, "sc.cconn"},
+				}, ws + ".peekBufferedData", "sc.bconn"},
+				{"backend", func(v ssa.Value) bool { return nxOrigin(v) == "sc.bbr" }, ws + ".peekBufferedData", "sc.cconn"},
 			}
 			maxSync := c47transfer(c, tr, "sc.cconn", "sc.bconn", "sc.errCh", flush)
 			// the client connection used by the copies is the hijacked one
